@@ -8,6 +8,15 @@ BASE_NOTE = "Trusted base: Go 1.26.8 toolchain (testing/synctest for the virtual
 
 # property -> (technique, level text, design ref, extra note)
 CLAIMED = {
+ "C01": ("rapid-generated messages; round-trip + byte-exact differential against an independent canonical encoder; canary buffers",
+         "Generated-input search (20k messages per coder quick, 1.6M thorough) over the whole precondition domain with generators built to hit every delta/length/Len extension class and boundary; four oracles per message (size in advance, byte-exact differential, decode round-trip, ErrTooSmall without touching memory behind the buffer), the pooled API on fresh and recycled messages, and a negative engine for the three refusals the statement names. A bounded random search, not a proof.",
+         "DESIGN.md 3/C01", "One open known finding: types 4-255 are encoded (pinned test requires it)."),
+ "C02": ("differential fuzzing of the decoders against an independent RFC parser: exhaustive short strings, rapid mutations, truncation at every offset, fault-injecting grammar, native coverage-guided fuzzing (thorough)",
+         "Every input is decided by comparison with a reference parser written from RFC 7252 s.3 / RFC 8323 s.3 (accept / reject / short read, all fields, bytes consumed, 64-bit declared length), followed by re-encode/re-decode idempotence and canonical-bytes checks and an aliasing check through four pooled-message modes. The short-string sub-domain is enumerated completely; everything else is bounded search.",
+         "DESIGN.md 3/C02", ""),
+ "C20": ("exhaustive table against the RFC 7967 class rule + generated end-to-end requests with a wire oracle",
+         "The (value, code) table is enumerated completely for values 0-63 and a grid of larger values x all 256 codes through IsNoResponseCode and ResponseWriter.SetResponse; the end-to-end half is a bounded generated search on the in-memory network.",
+         "DESIGN.md 3/C20", ""),
  "C19": ("exhaustive enumeration against an RFC 7959 specification function",
          "Complete enumeration of the finite domain: all 2^24 option values (all 2^32 decoder inputs in the thorough tier), all 8x2^20x2 encoder triples plus a grid of out-of-domain arguments, SZX.Size for 0-255, and the first BERT block for maximum message sizes 1152-70000 through the public block-wise API. For the codec functions this is a decision, not a sample.",
          "DESIGN.md 3/C19", "BERT sizing is observed on the first block only."),
